@@ -101,7 +101,14 @@ def run(names, all_props=False):
             print('%-14s %-16s %s' % (n, results[n], '; '.join('%s exit %d %s' % (p, rc, v[0].strip()[:150] if v else '') for p, rc, v in line if rc or p == pid)))
         finally:
             sh(['git', '-C', '/repo', 'checkout', '--', '.'])
-    json.dump(results, open(os.path.join(VERIF, 'seeded', 'RESULTS.json'), 'w'), indent=1, sort_keys=True)
+    rp = os.path.join(VERIF, 'seeded', 'RESULTS.json')
+    try:
+        merged = json.load(open(rp))
+    except Exception:
+        merged = {}
+    merged.update(results)
+    merged = {k: v for k, v in merged.items() if os.path.isdir(os.path.join(SEEDED, k))}
+    json.dump(merged, open(rp, 'w'), indent=1, sort_keys=True)
     return 0
 
 
